@@ -1,4 +1,5 @@
 import IslaVerif.Model.Formats
+import IslaVerif.Proofs.Formats
 /-
 C21 — inputs generated for the bundled formalizations pass independent validity checks.
 
@@ -6,9 +7,12 @@ The checks are executable SPECIFICATIONS of the formats (Model/Formats.lean), wr
 formats' own rules and not from the ISLa constraints: CSV column counts (quote-aware), XML
 well-formedness + attribute uniqueness + namespace prefixes declared in scope, simple-TAR field
 widths / checksum / link targets, reST underline / link-target / numbering rules on the derivation
-tree.  They are not models of ISLa code, so there is no refinement theorem to prove; the theorems
-below are sanity facts that pin the specifications down, plus accepted / rejected examples.
-The reST clause "docutils renders without errors" depends on an external library: not covered.
+tree.  They are not models of ISLa code (nothing about the solver is proved here).  The first part holds
+sanity facts and accepted / rejected examples; the second part proves each executable checker sound
+and complete for a DECLARATIVE statement of the rule (Proofs/Formats.lean), so that "accepted by
+the compiled checker" means what the rule says, for every input.
+The reST clause "docutils renders without errors" cannot be expressed by a Lean model; the harness
+runs docutils as an external oracle.
 -/
 namespace IslaVerif.C21
 open IslaVerif Formats
@@ -67,5 +71,111 @@ theorem tarEntry_size (e : List Char) (h : e.length ≠ 216) : tarEntry e = none
 
 theorem tarOk_size (s : List Char) (h : s.length % 216 ≠ 0) : tarOk s = false := by
   simp [tarOk, h]
+
+/-! ## Declarative specifications (Proofs/Formats.lean)
+
+The executable checkers are sound — and, except where stated, complete — for Prop-valued
+specifications: `Consecutive`-style numbering, per-record separator counts of (quote-aware) CSV
+text, `TarValid` archives, and XML documents whose token sequence (`Tokenizes`) is one well-formed
+`Element`. -/
+
+/-- reST numbering: all items carry a number, and each adjacent pair `(a, b)` has `0 < a`, `b = a + 1` -/
+theorem consecutiveFrom_iff (l : List (Option Nat)) :
+    consecutiveFrom l = true ↔
+      ∃ ns : List Nat, l = ns.map some ∧
+        ∀ i, (h : i + 1 < ns.length) → 0 < ns[i] ∧ ns[i + 1] = ns[i] + 1 :=
+  Formats.consecutiveFrom_iff l
+
+theorem restNumberingOk_iff (g : Grammar) (t : DTree) :
+    restNumberingOk g t = true ↔
+      ∀ e ∈ nodesOf t "<enumeration>", ∃ ns : List Nat, enumNumbers g e = ns.map some ∧
+        ∀ i, (h : i + 1 < ns.length) → 0 < ns[i] ∧ ns[i + 1] = ns[i] + 1 :=
+  Formats.restNumberingOk_iff g t
+
+/-- CSV, quote-free text `l₁ ⏎ l₂ ⏎ … lₖ ⏎`: the scanner yields `1 + count ';' lᵢ` per line -/
+theorem csvScan_plain (ls : List (List Char)) (hq : ∀ l ∈ ls, Plain l) :
+    csvScan (joinLines ls) false 1 [] = ls.map fun l => 1 + l.count ';' :=
+  Formats.csvScan_plain ls hq
+
+/-- such a text with at least one line is accepted iff all lines have the same number of `;` -/
+theorem csvOk_plain (ls : List (List Char)) (hne : ls ≠ []) (hq : ∀ l ∈ ls, Plain l) :
+    csvOk (joinLines ls) = true ↔ ∃ k, ∀ l ∈ ls, l.count ';' = k :=
+  Formats.csvOk_plain' ls hne hq
+
+/-- quoted separators and line feeds are skipped -/
+theorem csvScan_quoted (q rest : List Char) (n : Nat) (acc : List Nat) (hq : ∀ c ∈ q, c ≠ '"') :
+    csvScan ('"' :: q ++ '"' :: rest) false n acc = csvScan rest false n acc :=
+  Formats.csvScan_quoted q rest n acc hq
+
+/-- CSV, quote-aware: records made of plain pieces and quoted strings; the scanner yields one more
+than the number of separators OUTSIDE quotes, and the text is accepted iff that number is the same
+for all records -/
+theorem csvScan_records (rs : List (List Seg)) (hok : ∀ r ∈ rs, ∀ g ∈ r, g.Ok) :
+    csvScan (renderRecords rs) false 1 [] = rs.map fun r => 1 + recordSeps r :=
+  Formats.csvScan_records rs hok
+
+theorem csvOk_records (rs : List (List Seg)) (hne : rs ≠ []) (hok : ∀ r ∈ rs, ∀ g ∈ r, g.Ok) :
+    csvOk (renderRecords rs) = true ↔ ∃ k, ∀ r ∈ rs, recordSeps r = k :=
+  Formats.csvOk_records rs hne hok
+
+/-- TAR: accepted archives are a positive number of 216-character blocks, each an entry -/
+theorem tarOk_sound (s : List Char) (h : tarOk s = true) :
+    s.length % 216 = 0 ∧ s ≠ [] ∧
+      ∀ i, i < s.length / 216 → ∃ e, tarEntry ((s.drop (216 * i)).take 216) = some e :=
+  Formats.tarOk_sound s h
+
+/-- TAR: size, checksum (the 6 octal digits at offset 100 denote the sum of the character codes of
+the 209 header characters with the checksum field blanked), checksum terminator, type flag,
+content marker and NUL-padded names of an accepted entry -/
+theorem tarEntry_sound (e : List Char) (r : TarEntry) (h : tarEntry e = some r) :
+    e.length = 216 ∧
+    octVal ((e.drop 100).take 6) = some ((blankChecksum e).map Char.toNat).sum ∧
+    e[106]? = some nul ∧ e[107]? = some ' ' ∧
+    (e[108]? = some '0' ∨ e[108]? = some '2') ∧ e[108]? = some r.typeflag ∧
+    e.drop 209 = "CONTENT".toList ∧
+    r.name ≠ [] ∧ nul ∉ r.name ∧ (∃ k, e.take 100 = r.name ++ List.replicate k nul) ∧
+    nul ∉ r.linked ∧ (∃ k, (e.drop 109).take 100 = r.linked ++ List.replicate k nul) :=
+  Formats.tarEntry_sound e r h
+
+/-- `blankChecksum e` is the header with the characters 100..107 replaced by blanks -/
+theorem blankChecksum_getElem? (e : List Char) (he : e.length = 216) (i : Nat) (hi : i < 209) :
+    (blankChecksum e)[i]? = if 100 ≤ i ∧ i < 108 then some ' ' else e[i]? :=
+  Formats.blankChecksum_getElem? e he i hi
+
+/-- TAR: `tarOk` is sound and complete for `TarValid` (blocks are entries; every link with a
+non-empty target names another entry) -/
+theorem tarOk_iff (s : List Char) : tarOk s = true ↔ ∃ es, TarValid s es :=
+  Formats.tarOk_iff s
+
+/-- XML: the accepted documents are exactly those whose token sequence is one well-formed element
+(balanced tags with matching names, no text outside the root, `tagOk` for every tag in its scope) -/
+theorem xmlOk_iff (s : List Char) : xmlOk s = true ↔ ∃ toks, Tokenizes s toks ∧ Element [] toks :=
+  Formats.xmlOk_iff s
+
+theorem xmlOk_balanced (s : List Char) (h : xmlOk s = true) :
+    ∃ toks, Tokenizes s toks ∧ countKind .opening toks = countKind .closing toks :=
+  Formats.xmlOk_balanced s h
+
+/-- XML: the per-tag conditions -/
+theorem tagOk_iff (scope : List (List Char)) (t : Tag) :
+    tagOk scope t = true ↔
+      (t.attrs.map (·.1)).Nodup ∧
+      (∀ p, prefixOf t.name = some p → p ∈ declared t ++ scope) ∧
+      ∀ a ∈ t.attrs, ∀ p, prefixOf a.1 = some p → p = xmlns ∨ p ∈ declared t ++ scope :=
+  Formats.tagOk_iff scope t
+
+theorem xmlOk_nil : xmlOk [] = false := Formats.xmlOk_nil
+
+/-- text outside any element is rejected -/
+theorem xmlScan_text_outside (f : Nat) (c : Char) (rest : List Char) (seen : Bool) (hc : c ≠ '<') :
+    xmlScan (f + 1) (c :: rest) [] seen = false :=
+  Formats.xmlScan_text_outside f c rest seen hc
+
+/-- a closing tag whose name differs from the innermost open element is rejected -/
+theorem xmlScan_close_mismatch (f : Nat) (rest rest' : List Char) (t : Tag) (n : List Char)
+    (sc : List (List Char)) (st : List (List Char × List (List Char))) (seen : Bool)
+    (hp : parseTag rest = some (t, rest')) (hk : t.kind = .closing) (hn : n ≠ t.name) :
+    xmlScan (f + 1) ('<' :: rest) ((n, sc) :: st) seen = false :=
+  Formats.xmlScan_close_mismatch f rest rest' t n sc st seen hp hk hn
 
 end IslaVerif.C21
